@@ -273,6 +273,7 @@ class Interp:
         self.executed = set()   # names of local MIR functions executed (evidence)
         self.models_used = set()
         self.max_perm = 3       # containers up to this size get every iteration order
+        self.order_mode = 'perm'  # 'perm': every permutation (<= max_perm entries); 'global': one of three policies per path
         self.order_skipped = 0
         self.consts_cache = {}
     # ---------------------------------------------------------------- lookup helpers
@@ -840,6 +841,11 @@ class Interp:
             return sorted(items, key=lambda kv: ckey(kv[0]))
         n = len(items)
         if n <= 1: return items
+        if self.order_mode == 'global':
+            pol = self.global_policy()
+            if pol == 0: return items
+            if pol == 1: return list(reversed(items))
+            return items[1:] + items[:1]
         if n > self.max_perm:
             self.order_skipped += 1
             return items
@@ -849,6 +855,11 @@ class Interp:
             i = self.ctx.choose(len(rest), 'hash-order')
             out.append(rest.pop(i))
         return out + rest
+    def global_policy(self):
+        """one nondeterministic choice per path: 0 insertion order, 1 reversed, 2 rotated (applied to every hash container
+        and to heap ties on that path)"""
+        if getattr(self.ctx, 'order_policy', None) is None: self.ctx.order_policy = self.ctx.choose(3, 'global-hash-order')
+        return self.ctx.order_policy
     # ---------------------------------------------------------------- calls
     def call(self, fname, args):
         f = strip_generics(fname)
@@ -1180,7 +1191,8 @@ class Interp:
                     c = self.call('<NodeWithDomains<\'_> as Ord>::cmp', [Ptr(Cell(mp.items[i])), Ptr(Cell(mp.items[best[0]]))]) if isinstance(mp.items[i], Agg) and mp.items[i].name == 'NodeWithDomains' else Agg('Ordering', self.compare(mp.items[i], mp.items[best[0]]) + 1, [])
                     if c.variant == 2: best = [i]
                     elif c.variant == 1: best.append(i)
-                if len(best) > self.max_perm: self.order_skipped += 1; j = best[0]
+                if self.order_mode == 'global': j = best[{0: 0, 1: -1, 2: len(best) // 2}[self.global_policy()]]
+                elif len(best) > self.max_perm: self.order_skipped += 1; j = best[0]
                 else: j = best[self.ctx.choose(len(best), 'heap-tie')]
                 return Agg('Option', 1, [mp.items.pop(j)])
             if name == 'len': return len(mp.items)
